@@ -526,13 +526,88 @@ def hash_roundtrip(arrays, fmt, via_file, scratch):
     return None, text
 
 
+
+# ------------------------------------------------------------------------------------------------
+# families: molecules that share every HASHED field (symbols, masses, real, geometry, charges, multiplicities,
+# fragments) and differ in fields the psi4 text carries but the hash ignores (fix_com / fix_orientation, user
+# labels); written one after the other through the live-object entry points in one process, each read back and
+# compared field by field with ITS OWN source.
+
+def family_spec(rng):
+    arrays, _ = gen_valid(rng, "psi4")
+    arrays = dict(arrays)
+    for k in ("input_units_to_au", "fix_com", "fix_orientation"):
+        arrays.pop(k, None)
+    nat = len(arrays["elez"])
+    combos = [(False, False), (True, False), (False, True), (True, True)]
+    rng.shuffle(combos)
+    variants = []
+    for i in range(rng.choice([2, 3, 3, 4])):
+        a = dict(arrays)
+        if combos[i][0]:
+            a["fix_com"] = True
+        if combos[i][1]:
+            a["fix_orientation"] = True
+        if i > 0 and rng.random() < 0.75:
+            a["elbl"] = [rng.choice(c08.LABELS) for _ in range(nat)]
+        variants.append(a)
+    order = list(range(len(variants)))
+    rng.shuffle(order)
+    order = order + [order[0]] + order[::-1]           # every molecule again after the others
+    steps = [{"who": i, "via_file": rng.random() < 0.3, "units": rng.choice(["Bohr", "Angstrom"]),
+              "prec": rng.choice([8, 10, 12, 14])} for i in order]
+    return {"variants": variants, "steps": steps, "fmt": "psi4"}
+
+
+def run_family(spec, scratch):
+    """-> (texts written, first failure or None); failure = (step index, description, text)"""
+    from qcelemental.models import Molecule
+    from qcelemental.molparse import from_schema, to_schema
+    fmt = spec["fmt"]
+    mols, own = [], []
+    for a in spec["variants"]:
+        m = Molecule(**to_schema(c08.build_molrec(a), dtype=2))
+        mols.append(m)
+        own.append(from_schema(m.dict(), nonphysical=True))
+    texts, bad = [], None
+    for k, st in enumerate(spec["steps"]):
+        mol, rec = mols[st["who"]], own[st["who"]]
+        try:
+            if st["via_file"]:
+                path = os.path.join(scratch, "family.psi4")
+                mol.to_file(path)
+                with open(path) as fh:
+                    text = fh.read()
+                units, prec = "Bohr", 12
+                with contextlib.redirect_stdout(io.StringIO()):
+                    back = Molecule.from_file(path)
+            else:
+                units, prec = st["units"], st["prec"]
+                text = mol.to_string(fmt, units=units, prec=prec)
+                with contextlib.redirect_stdout(io.StringIO()):
+                    back = Molecule.from_data(text, dtype=fmt)
+        except Exception as e:
+            return texts, (k, f"Molecule -> {fmt} -> Molecule raised {type(e).__name__}: {str(e)[:160]}", None)
+        texts.append(text)
+        what = roundtrip_fields(rec, fmt, units, prec, text, observe(text, fmt)["final"])
+        if not what:
+            if bool(back.fix_com) != bool(mol.fix_com) or bool(back.fix_orientation) != bool(mol.fix_orientation):
+                what = "fix_com / fix_orientation of the Molecule read back differ from the Molecule written"
+            elif [str(x) for x in back.atom_labels] != [str(x) for x in mol.atom_labels]:
+                what = "atom_labels of the Molecule read back differ from the Molecule written"
+        if what and bad is None:
+            bad = (k, f"step {k} (molecule {st['who']} of {len(mols)} hash-equal molecules, "
+                      f"{'file' if st['via_file'] else 'string'}): {what}", text)
+    return texts, bad
+
+
 # ------------------------------------------------------------------------------------------------
 
 def correspond(ctx):
     corr = Corr()
     corr.rule = ("(lex) recognisers vs re on seeded/mutated/random tokens and lines; (valid) validated molecules x {xyz, xyz+, psi4} x "
                  "{Bohr, Angstrom} x precision 8-14 written by the implementation and parsed by both; (layout) six kinds of rewrites of "
-                 "those texts; (cross) a valid text of one format read as the other two; (mutation/soup) byte-level mutations of valid texts and token soups under each dtype; a case is "
+                 "those texts; (family) 2-4 molecules equal in every hashed field but different in frame flags / user labels, written one after the other through Molecule.to_string / to_file and each read back; (cross) a valid text of one format read as the other two; (mutation/soup) byte-level mutations of valid texts and token soups under each dtype; a case is "
                  "non-trivial when the implementation got as far as handing a dictionary to from_input_arrays; distinct = distinct (dtype, text)")
     rng = ctx.rng
     scratch = os.path.join(coqrun.VERIF, "build", "scratch_c07_files")
@@ -573,6 +648,20 @@ def correspond(ctx):
                 t2 = rewrite(rng, fmt, text, kind)
                 if t2 is not None and t2 != text:
                     cases.append(("layout:" + kind, fmt, t2, {"original": text}))
+    # ---- families of hash-equal molecules written one after the other (live Molecule entry points)
+    for k in range(60 if ctx.thorough else 10):
+        spec = family_spec(rng)
+        try:
+            texts, bad = run_family(spec, scratch)
+        except Exception as e:
+            corr.errors.append(f"family stream: {e!r}")
+            continue
+        corr.count("family", len(spec["steps"]))
+        corr.hit(f"family:{len(spec['variants'])}-molecules")
+        if bad:
+            corr.failures.append({"stream": "family", "case": dict(spec, step=bad[0]), "what": bad[1], "observed": bad[2]})
+        for t in texts[:len(spec["variants"])]:
+            cases.append(("family", "psi4", t, {}))
     nmut = 30000 if ctx.thorough else 1800
     for k in range(nmut):
         fmt, text = valid_texts[rng.randrange(len(valid_texts))]
@@ -723,6 +812,12 @@ def search(ctx, corr, reasons):
 def replay(ctx, rp):
     case = rp["case"]
     stream = rp.get("stream", "")
+    if stream == "family" or "variants" in case:
+        scratch = os.path.join(coqrun.VERIF, "build", "scratch_c07_files")
+        os.makedirs(scratch, exist_ok=True)
+        texts, bad = run_family(case, scratch)
+        return {"input": {"variants": case["variants"], "steps": case["steps"]}, "implementation": bad[2] if bad else None,
+                "oracle": bad[1] if bad else None, "fails": bool(bad)}
     if stream == "history":
         bad = text_history.check_from_string(case["calls"])
         return {"input": {"calls": len(case["calls"]), "index": case.get("index")}, "implementation": list(bad[1:]) if bad else None,
@@ -800,7 +895,9 @@ LEVEL_TEXT = (
     "filter_comments/strip against the functions, parse against from_string (explicit dtype and dtype=None) on valid texts, seven kinds "
     "of layout rewrites, byte-level mutations and token soups (the dictionary handed to from_input_arrays is observed by wrapping that "
     "function); oracles on the implementation: field-wise round trip, Molecule -> string/file -> Molecule hash equality, layout "
-    "invariance, exception classes, repeated-call stability.")
+    "invariance, exception classes, order independence (the same texts under every dtype in sequence vs a fresh interpreter in reverse order), "
+    "and families of 2-4 molecules equal in every hashed field but different in frame flags / user labels written one after the other "
+    "through Molecule.to_string / to_file, each read back and compared with its own source.")
 LEVEL_NOTE = (
     "Clause map: round trip -> roundtrip_psi4(_auto)/xyzplus/xyz (characters); unchanged hash -> oracle only (validation after parsing "
     "is C04/C05/C06, hash C11); layout -> comments/outer whitespace for all dtypes, blank lines and line padding for psi4 and for "
